@@ -684,7 +684,7 @@ func c03Codec(p *Prog, rp *Report, parser *ssa.Function) {
 // parse of the epoch is limited to the width of the Epoch field.
 func c03Width(p *Prog, rp *Report) {
 	r := rp.Rule("C03-EPOCHWIDTH", "the parsed epoch fits the Epoch field on 32 bit platforms", 1)
-	p386, err := Load(repoDir(), "386", nil, "./version/")
+	p386, err := Load(repoDir(), "386", activeOverlay, "./version/")
 	if err != nil {
 		rp.Errorf("386 load: %v", err)
 		return
